@@ -378,11 +378,13 @@ func evalScript(it item) *outcome {
 	// catalogue (TickExprKnown.tla) is complete for the deterministic sweeps only, so seeded
 	// random compositions are verdict-level for Format and lambda JSON and observed here
 	skip := rt.M{"err": "", "pe": "", "iso": "", "sigs": []any{}, "skipped": true}
-	if it.Cls == "random" {
+	if it.Cls == "random" || it.Cls == "eol" {
 		ln["b"], ln["cb"] = skip, skip
 		ln["c"] = rt.M{"merr": "", "uerr": "", "iso": "", "rejson": false, "sigs": []any{}, "skipped": true}
 		oo := &outcome{Tag: it.Tag}
-		renderAndCompare(p0, p0, it.Edge, oo)
+		if it.Cls == "random" {
+			renderAndCompare(p0, p0, it.Edge, oo)
+		}
 		for _, sg := range oo.Sigs {
 			o.Devs = append(o.Devs, "obs:random:"+sg.Sig)
 			o.Note = append(o.Note, "obs:random:"+sg.Sig+": "+sg.Note)
